@@ -22,6 +22,7 @@ requests fields                                -> the theory flag names, in orde
          theory <wire term>                    -> <T>   (TheoryOracle.get_theory, modelled)
          features <wire term>                  -> <T> q|qf   (specification: features the term uses)
          detect <wire term>                    -> ok <name> <qf> <T> | err <class>   (oracles.get_logic, modelled)
+         fragment <wire term>                  -> true|false   (hypothesis `inFragment` of the detection theorems)
 anything else -> bad-op
 -/
 import PySMT.Gen.Logics
@@ -91,6 +92,7 @@ def termAnswer (line : String) : Option String :=
       let t ← term
       return showT (Features.features t) ++ (if Features.hasQuant t then " q" else " qf")) toks
   | some "detect" => some <| DriverLib.handle (do let t ← term; return showR (TheoryOracle.getLogic t)) toks
+  | some "fragment" => some <| DriverLib.handle (do let t ← term; return tf (Features.inFragment t)) toks
   | _ => none
 
 def answer (all : Array Theory) (line : String) : String :=
@@ -98,7 +100,7 @@ def answer (all : Array Theory) (line : String) : String :=
   | some a => a
   | none =>
   match line.splitOn " " with
-  | ["caps"] => "theory features detect"
+  | ["caps"] => "theory features detect fragment"
   | ["le", a, b] => rel2 Logic.le a b
   | ["lt", a, b] => rel2 Logic.lt a b
   | ["ge", a, b] => rel2 Logic.ge a b
